@@ -205,12 +205,13 @@ class Model:
         c = op[1]
         judged = c in self.JUDGED
         twin = fresh_twin(net) if judged else None
+        prev_nan = bool(len(net.res_bus) and net.res_bus.vm_pu.isna().any())
         try:
             self._run(net, c)
             oc = "ok" if (net.converged or c in ("calc_sc", "runopp", "runpp_3ph")) else "not_converged"
         except Exception as e:
             oc = type(e).__name__
-        out = {"calc": c, "oc": oc, "diffs": [], "since_pf": s["since_pf"], "idx_changed": s["idx_changed"]}
+        out = {"calc": c, "oc": oc, "diffs": [], "since_pf": s["since_pf"], "idx_changed": s["idx_changed"], "prev_nan": prev_nan}
         if judged:
             ref_c = "runpp" if c in ("runpp_init_results", "runpp_init_vmva") else c
             try:
@@ -271,6 +272,8 @@ class Model:
                 clause = "same_outcome_as_fresh"
             toks = ["calc=" + c, "got=" + str(oc), "fresh=" + str(toc), "base=" + self.basename,
                     "prev=" + (hist[-1][1] if hist and hist[-1][0] == "calc" else "edit")]
+            if outcome.get("prev_nan"):
+                toks.append("prev_results_have_nan")
             vs.append(core.violation(clause, {"calc": c, "outcome": oc, "fresh_outcome": toc, "since_pf": outcome["since_pf"]},
                                      tokens=toks, klass="%s:%s/%s" % (c, oc, toc)))
             return vs
